@@ -206,7 +206,7 @@ class SmiV2Lexer(AbstractLexer):
         pass
 
     def t_UPPERCASE_IDENTIFIER(self, t):
-        r'[A-Z](?:-(?!-)|[a-zA-z0-9])*'
+        r'[A-Z](?:-(?!-)|[a-zA-Z0-9_])*'
         if t.value in self.forbidden_words:
             raise error.PySmiLexerError("%s is forbidden" % t.value, lineno=t.lineno)
 
@@ -218,7 +218,7 @@ class SmiV2Lexer(AbstractLexer):
         return t
 
     def t_LOWERCASE_IDENTIFIER(self, t):
-        r'[0-9]*[a-z](?:-(?!-)|[a-zA-z0-9])*'
+        r'[0-9]*[a-z](?:-(?!-)|[a-zA-Z0-9_])*'
         if t.value[-1] == '-':
             raise error.PySmiLexerError("Identifier should not end with '-': %s" % t.value, lineno=t.lineno)
         return t
